@@ -96,9 +96,14 @@ def run(R):
     R.rule("C13-R9", "RDF/XML character data is one literal: the RDF/XML loaders emit a literal triple when the property element ends (End event), "
                      "from text accumulated over the Text and entity-reference events in between - not one triple per Text event, which splits "
                      "`a &amp; b` into `a` and `b` and drops the entity")
+    R.rule("C13-R10", "escapes are tracked by state, not by looking back: a character scanner of the loaders that has to know whether a quote is "
+                      "escaped keeps a flag that a backslash sets and the next character clears (as the tokenizers and decoders do). None "
+                      "compares the PREVIOUS character with a backslash: after `\\\\` (an escaped backslash) the previous character is a backslash "
+                      "although the quote that follows is not escaped - the in-literal state is then inverted for the rest of the line")
     r7(R)
     r8(R)
     r9(R)
+    r10(R)
 
 
 def shared_dictionary(b, fam, prog, root_a, root_b):
@@ -639,3 +644,57 @@ def r9(R):
         R.ob("C13-R9", "references-kept:" + ent, "%s handles entity references (GeneralRef events)" % ent, bool(ref_arm) and any(c.bb in ref_arm for c in x.calls()),
              where=x.where(), detail=None if ref_arm else "`&amp;` `&lt;` `&#233;` inside a literal are dropped")
     R.floor("C13-R9", "RDF/XML loaders", n, 2)
+
+
+
+def r10(R):
+    prog = R.prog
+    nscan = 0
+    seen_bodies = set()
+    for root in _loader_roots(prog) + [b for b in prog.bodies.values() if b.self_adt == SD and not b.is_closure and not is_test(b) and b.name.startswith("generate_")]:
+        for k in sorted(prog.reachable([root.key])):
+            x = prog.bodies.get(k)
+            if x is None or k in seen_bodies or x.crate != "kolibrie" or not x.file.endswith("sparql_database.rs") or is_test(x):
+                continue
+            seen_bodies.add(k)
+            # a scanner: switches on / compares a char with the quote character
+            quote = False
+            for bb, t in x.terms():
+                if t["t"] == "switch" and any(v == "34" for v, tg in t["targets"]) and "char" in x.local_ty((F.op_place(t["discr"]) or {"l": 0})["l"]):
+                    quote = True
+            cmps = []
+            for bb, i, pl, rv, st in x.assigns():
+                if rv["rv"] == "binop" and rv["op"] in ("Eq", "Ne"):
+                    for me, other in ((rv["a"], rv["b"]), (rv["b"], rv["a"])):
+                        if me.get("k") == "const" and me.get("ty") == "char":
+                            if me.get("v") == "34":
+                                quote = True
+                            if me.get("v") == "92":
+                                cmps.append((bb, other, st))
+            if not quote:
+                continue
+            nscan += 1
+            bad = []
+            for bb, other, st in cmps:
+                pl = F.op_place(other)
+                if pl is None:
+                    continue
+                # resolve the compared local through copies
+                cur, seen = pl["l"], set()
+                while cur not in seen:
+                    seen.add(cur)
+                    ds = [d for d in x.defs().get(cur, []) if d[0] == "assign" and d[3]["rv"] == "use" and F.op_place(d[3]["op"]) is not None]
+                    if x.local_name(cur) or len(x.defs().get(cur, [])) != 1 or not ds:
+                        break
+                    cur = F.op_place(ds[0][3]["op"])["l"]
+                # a look-back variable: a named char local with a constant initialiser and a second definition copying another char local
+                ds = x.defs().get(cur, [])
+                init_const = any(d[0] == "assign" and d[3]["rv"] == "use" and d[3]["op"].get("k") == "const" for d in ds)
+                copies = [d for d in ds if d[0] == "assign" and d[3]["rv"] == "use" and F.op_place(d[3]["op"]) is not None and x.local_ty(F.op_place(d[3]["op"])["l"]) == "char"]
+                if x.local_ty(cur) == "char" and init_const and copies:
+                    bad.append((st.get("ln") if isinstance(st, dict) else None, x.local_name(cur) or "_%d" % cur))
+            rootname = prog.bodies[x.root].name if x.is_closure and x.root in prog.bodies else x.name
+            R.ob("C13-R10", "no-look-back:" + rootname, "%s does not decide escapes by the previous character" % rootname, not bad, where=x.where(bad[0][0] if bad else None),
+                 detail=None if not bad else "`%s` (the previous character) is compared with a backslash: `\"C:\\\\\"` ends with an escaped backslash, so its closing "
+                 "quote is taken for an escaped one and everything after it is read with the in-literal state inverted" % bad[0][1])
+    R.floor("C13-R10", "character scanners (functions that look for the quote character) in the loaders and writers", nscan, 4)
